@@ -158,7 +158,7 @@ def simplifications(script: dict) -> Iterator[dict]:
             c["messages"][i]["send_at_us"] = 0
             yield c
         atts = m.get("attempts") or []
-        if len(atts) > 1:
+        if len(atts) > 1 and atts[-2].get("out", ["ret"])[0] != "requeue":
             c = clone()
             c["messages"][i]["attempts"] = atts[:-1]
             yield c
